@@ -130,7 +130,7 @@ def parse_module(path):
                 pending.file = path
                 pending.crate, pending.src = m.crate, m.src
                 m.harnesses.append(pending)
-        if cur is not None:
+        if cur is not None and not s.startswith("//"):
             for o in OBL_RE.findall(ln):
                 if o not in cur.obligations:
                     cur.obligations.append(o)
